@@ -146,9 +146,13 @@ type Run struct {
 	pbMsgs   []Value
 	makeSites map[string]map[int]*Term
 	preempts int
+	readyCnt int
+	randReader PtrV // model of crypto/rand.Reader
 	schedTrace []string // rt.SchedPoint tags in the order they were passed
 	race     raceState
 	maxPreempt int
+	maxDelay   int // delay bound: at most this many scheduling decisions deviate from the default choice (-1: unbounded)
+	delays     int
 	zeroCache map[types.Type]Value
 }
 
